@@ -9,6 +9,10 @@ specs/codec/DotAbstract.tla  abstract DOT structure over a quoting-hostile strin
 specs/codec/NQuadsAbstract.tla  abstract N-Quads statement content over hostile literal texts (print then parse = identity)
 specs/codec/TokenCorrupt.tla  single-token corruptions of DOT / N-Quads documents (decoder totality only)
 specs/codec/HllState.tla     HyperLogLog sketch state, Marshal/Unmarshal/Union/SetHash rules, malformed-field grid
+specs/codec/HllHist.tla      decoder histories on an initialised HyperLogLog receiver: Write / Decode(valid, every rejection
+                             class) / Union / Reset; a rejected decode leaves the receiver as it was
+specs/codec/DotSubgraph.tla  abstract DOT terms with (nested) subgraph end points of edge statements: node set, bag of lines,
+                             edge set, self-pair error; the document text is the specification's token list
 specs/codec/PrngStream.tla   generator = place in an output stream + opaque byte tokens; PrngHist.tla enumerates histories
                              (spec->code), PrngStreamTrace.tla validates recorded histories (code->spec)
 
@@ -158,6 +162,24 @@ def run_dot(ctx, bins):
                         name="R1+R2 gen dot %s (%s)" % (mode, what))
         for bn, b in bins.items():
             ctx.replay(b, "codec-dot", cases, name="R2 replay dot %s %s [%s]" % (mode, what, bn))
+    # decode side: edge statements whose end points are subgraphs nested to depth 3 (DotSubgraph.tla), into simple and
+    # multi, directed and undirected destinations
+    spec, cfg = "codec/DotSubgraph.tla", "codec/DotSubgraph.cfg"
+    if thorough:
+        subruns = [("small", "<= 3 leaves: every shape x every pattern of repeated names, + second statement, + earlier node statement", 0, 1)]
+        subruns += [("four", "4 leaves, every pattern of repeated names, shard %d/4" % i, i, 4) for i in range(4)]
+        subruns += [("chain", "chains of three end points, <= 4 leaves, every pattern", 0, 1)]
+    else:
+        subruns = [("small", "<= 3 leaves: every shape x every pattern of repeated names, + second statement, + earlier node statement", 0, 1),
+                   ("four", "4 leaves, 3 patterns of repeated names, shard %d/4 (by seed)" % (ctx.seed % 4), ctx.seed % 4, 4),
+                   ("chain", "chains of three end points, <= 4 leaves, shard %d/2 (by seed)" % (ctx.seed % 2), ctx.seed % 2, 2)]
+    for mode, what, shard, nshards in subruns:
+        # (the seed only enters the shard selector: an unsharded family is the same for every seed and is cached once)
+        sub = dict(MODE=mode, SEED=ctx.seed if nshards > 1 else 0, SHARD=shard, NSHARDS=nshards, EMIT="TRUE",
+                   ALLPATS="TRUE" if thorough else "FALSE")
+        cases = ctx.gen(spec, cfg, subst=sub, name="R1+R2 gen dot subgraph end points %s (%s)" % (mode, what))
+        for bn, b in bins.items():
+            ctx.replay(b, "codec-dotsub", cases, name="R2 replay dot subgraph end points %s [%s]" % (mode, bn))
 
 
 def run_nquads(ctx, bins):
@@ -190,6 +212,15 @@ def run_hll(ctx, bins):
                         name="R1+R2 gen hll%d: marshal/unmarshal x receiver, Union table, SetHash, malformed-field grid" % w)
         for bn, b in bins.items():
             ctx.replay(b, "codec-hll", cases, name="R2 replay hll%d [%s]" % (w, bn))
+        # decoder histories on an initialised receiver: 4 prepared sketches x (context operation, any operation incl. the
+        # 35 rejected encodings, probe operation, final Write); thorough: any operation at the first two places
+        full = ctx.tier == "thorough"
+        cases = ctx.gen("codec/HllHist.tla", "codec/HllHist.cfg",
+                        subst=dict(W=w, SEED=ctx.seed, EMIT="TRUE", FULL="TRUE" if full else "FALSE"), timeout=2400,
+                        name="R1+R2 gen hll%d decoder histories on an initialised receiver (%s)" % (
+                            w, "every operation x every operation x probe" if full else "context x every operation x probe"))
+        for bn, b in bins.items():
+            ctx.replay(b, "codec-hll", cases, name="R2 replay hll%d decoder histories [%s]" % (w, bn))
 
 
 PRNG_FAMILIES = [
